@@ -29,7 +29,7 @@ for p in props:
             'design_ref': 'DESIGN.md section 6, ' + pid,
         },
         'level_note': 'Decides the listed structural clauses, not the runtime behaviour taken whole. Undecided: ' + '; '.join(getattr(mod, 'UNDECIDED', [])) + '. Trusted: rustc front end (nightly rustc_private), the fact extractor, ' + ', '.join(getattr(mod, 'TRUSTED', [])) + '.',
-        'technique': getattr(mod, 'TECHNIQUE', 'static analysis: custom rules over typed HIR / MIR facts (rustc_private driver)'),
+        'technique': getattr(mod, 'TECHNIQUE', 'static analysis: path-sensitive abstract interpretation of the typed HIR (term domain, no execution, no solver), exhaustive evaluation over finite partitions, data-origin / who-may-touch queries and a MIR call-graph panic cone, all over facts extracted by a rustc_private driver from /repo\'s working tree'),
     })
 m = {
     'version': 1,
@@ -45,11 +45,11 @@ m = {
         {'name': 'ldap3-facts', 'path': 'driver/', 'serves_properties': [c['property_id'] for c in checks],
          'kind_free_text': 'rustc_private driver: items, typed HIR with resolved callees, pre-optimisation MIR, as JSON facts'},
         {'name': 'rules', 'path': 'rules/', 'serves_properties': [c['property_id'] for c in checks],
-         'kind_free_text': 'Python rule library (stdlib only): data origin, control context, who-may-touch, finite-partition evaluation, shape extraction, panic cone'},
+         'kind_free_text': 'Python rule library (stdlib only): helper inlining and canonical control forms at fact load, path-sensitive abstract interpreter (absx) with library models, path-level queries (sem), driver-arm enumeration, data origin, who-may-touch, finite-partition evaluation, ASN.1 shape extraction, PEG extraction with language-level comparison, panic cone with discharge rules'},
     ],
     'checks': checks,
     'not_applicable': na,
-    'notes': 'All checks are static: the only processes run are cargo +nightly check (type checking with the fact-extracting wrapper) and, in thorough mode, compile-only doc-test witnesses. See DESIGN.md.',
+    'notes': 'All checks are static: the only process run on the analysed code is cargo +nightly check (type checking, with the fact-extracting rustc wrapper); nothing of inejge/ldap3 is executed. Quick = default feature configuration, thorough = all four configurations that build offline. See DESIGN.md (sections 11 and 12 describe the checks as built and how they were evaluated against seeded defects and behaviour-preserving refactors).',
 }
 fix_file = os.path.join(VERIF, 'tools', 'fix_commits.json')
 if os.path.exists(fix_file):
